@@ -11,6 +11,8 @@ func genMonotoneCase(r *Rng, p *Profile) *microCase {
 	w.p = &p2
 	w.genCtx()
 	key, salt := "mono", r.Pick([]string{"salt", "", "x"})
+	// the same representation for both configurations: decoded, hand-built, or re-encoded by the library and decoded again
+	itemForm := []int{1, 1, 0, 4, 4}[r.Intn(5)]
 	mk := func(ws []int64, segW int64, useSeg bool) *EvalCase {
 		c := &EvalCase{Ctx: w.ctx, Logger: true, Recorder: true}
 		f := JObj(KV{"key", JStr(key)}, KV{"on", JBool(true)}, KV{"salt", JStr(salt)}, KV{"offVariation", JNull()})
@@ -22,7 +24,7 @@ func genMonotoneCase(r *Rng, p *Profile) *microCase {
 		if useSeg {
 			seg := JObj(KV{"key", JStr("ms")}, KV{"salt", JStr(salt)}, KV{"included", JArr()}, KV{"excluded", JArr()},
 				KV{"rules", JArr(JObj(KV{"id", JStr("r")}, KV{"clauses", JArr()}, KV{"weight", JInt(segW)}))}, KV{"version", JInt(1)})
-			c.Segs = []Item{{Key: "ms", Form: 1, Doc: seg}}
+			c.Segs = []Item{{Key: "ms", Form: itemForm, Doc: seg}}
 			f.Set("rules", JArr(JObj(KV{"variation", JInt(1)}, KV{"id", JStr("in")}, KV{"clauses", JArr(JObj(KV{"attribute", JStr("")},
 				KV{"op", JStr("segmentMatch")}, KV{"values", JArr(JStr("ms"))}, KV{"negate", JBool(false)}))}, KV{"trackEvents", JBool(false)})))
 			f.Set("fallthrough", JObj(KV{"variation", JInt(0)}))
@@ -33,12 +35,12 @@ func genMonotoneCase(r *Rng, p *Profile) *microCase {
 			}
 			f.Set("fallthrough", JObj(KV{"rollout", JObj(KV{"variations", wv})}))
 		}
-		c.Top = Item{Key: key, Form: 1, Doc: f}
+		c.Top = Item{Key: key, Form: itemForm, Doc: f}
 		return c
 	}
 	useSeg := r.P(0.3)
 	var c1, c2 *EvalCase
-	desc := map[string]interface{}{"kind": "monotone", "context_spec": w.ctx, "salt": salt}
+	desc := map[string]interface{}{"kind": "monotone", "context_spec": w.ctx, "salt": salt, "form": itemForm}
 	grown := -1
 	if useSeg {
 		b, ok := w.bucketOf(false, nil, "", "ms", "", salt)
